@@ -66,15 +66,23 @@ def run(facts, tier):
 
 
 def blame(facts, it, idx):
-    """The function on the expression-evaluation chain that loses the property although all its callees keep it."""
-    chain = ["eval_union_expr", "eval_path_expr", "eval_filter_expr", "eval_filtered_loc_expr", "eval_primary_expr",
-             "eval_func_expr", "filter_by_predicate"]
-    bad = [n for n in chain if facts.fn_opt("xml_xpath::eval::" + n) and
-           not (it.summary(facts.fn("xml_xpath::eval::" + n)["id"])[idx])]
-    # pick the one whose workspace callees (in the chain) are all fine
-    for n in bad:
-        f = facts.fn("xml_xpath::eval::" + n)
-        callees = {e["name"].split("::")[-1] for e in facts.edges()[f["id"]] if e["kind"] == "call"}
-        if not any(c in bad and c != n for c in callees):
-            return "xml_xpath::eval::" + n
-    return ("xml_xpath::eval::" + bad[0]) if bad else None
+    """The function whose own body loses the property even when every callee is assumed to keep it."""
+    saved = dict(it.summ)
+    try:
+        for k in it.summ:
+            it.summ[k] = e5.TOP
+        names = ["eval_union_expr", "eval_path_expr", "eval_filter_expr", "eval_filtered_loc_expr", "eval_primary_expr",
+                 "eval_func_expr", "filter_by_predicate", "eval_expr", "document"]
+        for n in names:
+            f = facts.fn_opt("xml_xpath::eval::" + n)
+            if f is None:
+                continue
+            v = it.fn_value(f)
+            # eval_filtered_loc_expr legitimately returns a sorted, not yet de-duplicated vector (eval_union_expr finishes it)
+            if n == "eval_filtered_loc_expr" and idx == 1:
+                continue
+            if not v[idx]:
+                return "xml_xpath::eval::" + n
+    finally:
+        it.summ = saved
+    return None
